@@ -31,6 +31,7 @@ const A_MX_MULTI: &[&str] = &["Lf", "Li", "Lx", "Dg"];
 const A_RND: &[&str] = &["Sp", "Lf", "Li", "Lx", "Ld"];
 const A_LKP: &[&str] = &["Lf", "Lx", "Mk"];
 const A_ADV: &[&str] = &["Lf", "Li", "Lx"];
+const A_CNT: &[&str] = &["Lf", "Lx"];
 
 /// MaskDefault, MaskAll, MaskEmpty, CustomEmpty, MaskNum: the selectors of several chains
 const C_MORX_MULTI: &[u8] = &[0, 1, 8, 3, 5];
@@ -73,6 +74,7 @@ pub fn name_of_case(c: &Value) -> String {
             "adv" => format!("mx-adv-{}", s(c, "name")),
             x => panic!("mx kind {}", x),
         },
+        "cnt" => format!("cnt-{}-{}-n{}-{}", s(c, "tbl"), s(c, "feat"), n(c, "n"), s(c, "arr")),
         x => panic!("font case family {}", x),
     }
 }
@@ -96,6 +98,7 @@ pub fn from_name(name: &str, seed: u64) -> Option<SynthFont> {
             "adv" => mx_adv_font(name, &p[2..].join("-")),
             _ => panic!("font name {}", name),
         }),
+        "cnt" if p.len() == 5 => Some(cnt_font(name, p[1], p[2], p[3][1..].parse().expect("n"), p[4])),
         "morxrnd" if p.len() == 2 => Some(rnd_font(name, seed, p[1].parse().expect("k"))),
         _ => None,
     }
@@ -231,6 +234,49 @@ fn lkp_font(name: &str, tbl: &str, shape: &str, kinds: &[&str], last: &str) -> S
     // every eighth graph is also shaped with corrupted tables
     f.corruptible = name.bytes().map(|b| b as u64).sum::<u64>() % 8 == 0;
     f.max_len = 3;
+    f
+}
+
+// ---- cnt: a feature whose lookup list has a boundary size ------------------------------------------
+
+/// inline capacity of the scratch vector allsorts collects a feature's lookup indices in
+const INLINE_CAP: usize = 128;
+
+/// `ft` of `tbl` lists `n` lookup indices: n lookups ascending / descending, or one lookup n times.
+/// GPOS: every lookup adds 1 to the advance of x; GSUB: the lookups turn x into xalt and back in turn.
+fn cnt_font(name: &str, tbl: &str, ft: &str, n: usize, arr: &str) -> SynthFont {
+    let mut f = base(name.to_string(), "cnt", A_CNT, C_LKP);
+    let nl = if arr == "same" { 1 } else { n };
+    let list: Vec<usize> = match arr {
+        "same" => vec![0; n],
+        "desc" => (0..n).rev().collect(),
+        "distinct" => (0..n).collect(),
+        x => panic!("cnt arrangement {}", x),
+    };
+    tag(&mut f, &format!("cnt_{}", tbl));
+    tag(&mut f, &format!("cnt_arr_{}", arr));
+    tag(&mut f, if n < INLINE_CAP { "cnt_list_below_inline_capacity" } else if n == INLINE_CAP { "cnt_list_at_inline_capacity" } else { "cnt_list_above_inline_capacity" });
+    if n == INLINE_CAP + 1 {
+        tag(&mut f, "cnt_list_one_above_inline_capacity");
+    }
+    tag(&mut f, &format!("cnt_napply_{}", nl));
+    match tbl {
+        "gpos" => {
+            let lookups: Vec<Value> = (0..nl).map(|_| pos_single(0, &[G_X], 4, val(0, 0, 1, 0))).collect();
+            f.gsub = Some(gsub_prog(vec![feat("liga", &[0])], vec![liga_f(0)]));
+            f.gpos = Some(gpos_prog(vec![feat(ft, &list)], lookups));
+        }
+        "gsub" => {
+            let mut lookups: Vec<Value> =
+                (0..nl).map(|k| if k % 2 == 0 { single(0, &[G_X], &[G_XALT]) } else { single(0, &[G_XALT], &[G_X]) }).collect();
+            lookups.push(liga_f(0));
+            f.gsub = Some(gsub_prog(vec![feat(ft, &list), feat("calt", &[nl])], lookups));
+            f.gpos = Some(gpos_prog(vec![feat("dist", &[0])], vec![pos_single(0, &[G_F, G_X, G_XALT], 4, val(0, 0, -30, 0))]));
+        }
+        x => panic!("cnt table {}", x),
+    }
+    f.corruptible = name.bytes().map(|b| b as u64).sum::<u64>() % 8 == 0;
+    f.max_len = 2;
     f
 }
 
